@@ -16,15 +16,34 @@ CHECKS = {
  "C07": dict(tech="runtime monitoring: outline oracle (heading order, block->heading assignment, container instances, well-nestedness) + exhaustive heading-level sequences",
    text="Exploration: outline of input vs output per note (heading texts in order, each block's heading ordinal, container chain with list/item/quote ordinals), output levels well-nested per scope, well-nested inputs reproduced exactly.",
    note="conventions of the statement (heading-first items etc.) are not generated in clean mode", ref="§3 C07"),
+ "C04": dict(tech="runtime monitoring: differential observation-vector oracle (incremental Database vs from-scratch build) after every step of generated edit histories",
+   text="Exploration: after EVERY step of a generated history (update/insert on existing and new keys; edits that remove titles, drop last references, move links behind tables, toggle front matter, revert) the whole observation vector (exports, raw documents, titles, block+inline backlinks with lines, paths, ordered search results, node-at-line) is compared with a freshly built Database. Quick ~1.5k histories, thorough 4*10^4.",
+   note="reference = the same code started from scratch; node ids canonicalised away; clean grammar, LF", ref="§3 C04"),
+ "C05": dict(tech="runtime monitoring: backlink sets from the Graph API vs an independent link scanner + path resolver over generated libraries",
+   text="Exploration: for every note and every link target, block and inline backlink sets (owner, first line of linking block) must equal what an independent scan of all notes finds (resolution from the linking note's directory, one .md stripped, externals excluded). Clauses missing / spurious / wrong-line are separate.",
+   note="links in table cells are left undecided; inline links from sub-directories are an open finding (pinned reproducer)", ref="§3 C05"),
+ "C15": dict(tech="runtime monitoring: exhaustive enumeration of (key, directory) pairs through the real Key API against an independent path algebra",
+   text="Exhaustive over the stated universe (340 keys x 85 directories, depth <= 4, names with dots and spaces, decorated urls): write->resolve round trip, resolve->write equivalence, agreement with the harness's resolver.",
+   note="names ending in .md are outside the universe", ref="§3 C15"),
+ "C17": dict(tech="runtime monitoring: squash result vs an independent recursive expansion model of the source texts; CPU-time budget from model size",
+   text="Exploration: (reference graph, key, depth) cases incl. cycles, self-loops, dangling targets, depth up to 255 on small expansions; multiset of blocks and kept references of the rebuilt squashed note must equal the model's; termination judged on CPU budget proportional to model size.",
+   note="expansions above 1500 blocks are skipped (sibling-recursion stack overflow is judged by C03); relative order of references vs other siblings not judged (statement leaves it open)", ref="§3 C17"),
+ "C18": dict(tech="runtime monitoring: Graph::paths / global_search vs an outline + reference-edge model from the independent scanner; documented order recomputed with the same fuzzy matcher",
+   text="Exploration: completeness (every heading outside lists/quotes ends a path), soundness (every step of every path is a model edge, searched with backtracking over duplicate titles), <=100 results, exact documented order incl. tie-breakers, rank of a title == number of linking blocks.",
+   note="acyclic reference graphs in clean mode; self-reference and cycles are pinned open findings", ref="§3 C18"),
+ "C20": dict(tech="runtime monitoring: invariant walker over the arena at every quiescent point (hook H2) and after every history step",
+   text="Exploration: iterative walker checks disjoint acyclic forest, no orphans, no edge into tombstones, prev/next/child consistency, to_parent/to_document/key_of agreement, line ids in range and unshared, nodes_map liveness, ids never reused, DFS order == source block order; runs on every graph the code builds (incl. handler-local patch graphs).",
+   note="walker uses public API + read-only H3 dumps", ref="§3 C20"),
 }
 
+
 NOT_YET = {
- "C03": "check under construction", "C04": "check under construction", "C05": "check under construction",
+ "C03": "check under construction",
  "C08": "check under construction", "C09": "check under construction", "C10": "check under construction",
  "C11": "check under construction", "C12": "check under construction", "C13": "check under construction",
- "C14": "check under construction", "C15": "check under construction", "C16": "check under construction",
- "C17": "check under construction", "C18": "check under construction", "C19": "check under construction",
- "C20": "check under construction",
+ "C14": "check under construction", "C16": "check under construction",
+ "C19": "check under construction",
+
 }
 
 def main():
